@@ -34,10 +34,10 @@ vp_cancel(nni_aio *aio, void *arg, nng_err rv)
 	g_fire_arg[i] = arg;
 	if (g_race && aio == g_a0 && !g_race_done && !g_a1->a_sleep && g_a1->a_cancel_fn != NULL) {
 		/* What other threads may do while the expire lock is dropped: the provider of the other aio
-		 * completes its operation normally (REAL nni_aio_finish) and the consumer starts the next
+		 * completes its operation normally (REAL nni_aio_finish_sync: the completion callback runs) and the consumer starts the next
 		 * operation on it with a fresh relative timeout (REAL nni_aio_set_timeout / nni_aio_start). */
 		g_race_done = true;
-		nni_aio_finish(g_a1, NNG_OK, 0);
+		nni_aio_finish_sync(g_a1, NNG_OK, 0); /* callback runs (vp_cb), then: */
 		nni_aio_set_timeout(g_a1, g_race_timeout);
 		(void) nni_aio_start(g_a1, vp_cancel, NULL);
 	}
@@ -69,7 +69,16 @@ vp_eq_sleep(nni_cv *cv, nni_time when)
 	}
 	g_eq->eq_exit = true;
 }
+/* every wake-up on the expire cv happens under the expire lock, g_now being the clock value of the
+ * current iteration: a sleep (nng_sleep_aio) that has been completed by the loop had its deadline behind it */
+static void
+vp_eq_wake_check(void)
+{
+	__CPROVER_assert(!(g_sleep0[0] && !g_a0->a_sleep && g_left[0] == 0) || g_eq->eq_stop || g_a0->a_expire < g_now, "C02: a sleep is completed by the expire thread only after its deadline (a_expire < now)");
+	__CPROVER_assert(!(g_sleep0[1] && !g_a1->a_sleep && g_left[1] == 0) || g_eq->eq_stop || g_a1->a_expire < g_now, "C02: a sleep is completed by the expire thread only after its deadline (a_expire < now)");
+}
 #else
+static void vp_eq_wake_check(void) {}
 static void vp_eq_sleep(nni_cv *cv, nni_time when) { (void) cv; (void) when; __CPROVER_assert(0, "expire cv only in expire units"); }
 #endif
 #endif
